@@ -14,7 +14,11 @@ NOT written here: they are the regenerated values of `Gen/LeakPluginCode.lean`, 
 interpreters below (`dstep`, `pstep`, `rstep`).
 
 Block ids stand for addresses of live blocks: the scripted tests never allocate an id that is
-live and never free an id that is not (both are no-ops, as in the harness).
+live and never free or realloc an id that is not (no-ops, as in the harness).  The tracked
+realloc has two scripted outcomes: the platform realloc succeeds (`realloc`: old node removed,
+new node stored like a fresh allocation) or returns NULL (`reallocFail`: the old node is
+re-registered; which of its fields are restored from the saved copy is regenerated from
+`reallocMemory`'s failure branch).
 -/
 namespace LeakPlugin
 open Gen.LeakCode
@@ -60,6 +64,23 @@ def alloc (d : Detector) (id size : Nat) : Detector :=
 /-- `deallocMemory` → `removeNode` -/
 def free (d : Detector) (id : Nat) : Detector :=
   { d with recs := d.recs.filter (fun r => r.id != id) }
+
+/-- `reallocMemory`, platform realloc failed: the node that is put back for the old block.
+    Which fields come from the saved `oldNode` is read from the source (`Gen.LeakCode`). -/
+def restoredRec (d : Detector) (old : Rec) (size : Nat) : Rec :=
+  { id := old.id,
+    period := (match reallocFailPeriod with | .old => old.period | .fresh => d.cur),
+    num := (match reallocFailNumber with | .old => old.num | .fresh => d.seq),
+    size := (match reallocFailSize with | .old => old.size | .fresh => size) }
+
+/-- `reallocMemory(memory, size)` when `PlatformSpecificRealloc` returns NULL: `removeNode`
+    takes the old node out, the failure branch re-registers a node for the same block.
+    (The table is a set: where in its bucket the node is put back is not observable.) -/
+def reallocFail (d : Detector) (id size : Nat) : Detector :=
+  { d with recs := d.recs.map (fun r => if r.id == id then restoredRec d r size else r),
+           seq := (match reallocFailNumber with
+                   | .old => d.seq
+                   | .fresh => if d.isLive id then d.seq + 1 else d.seq) }
 
 /-- the nodes `getFirstLeak(p)` / `getNextLeak(.., p)` visit -/
 def leaksIn (d : Detector) (p : Period) : List Rec := d.recs.filter (fun r => isInPeriod r.period p)
@@ -145,11 +166,28 @@ inductive Cmd
   | ignoreLeaks                -- IGNORE_ALL_LEAKS_IN_TEST()
   | fail                       -- FAIL(...): the test's own failing check
   | envSeq (n : Nat)           -- environment: the allocation number has moved on to `n`
+  | realloc (id newId size : Nat)   -- tracked realloc of block `id`, platform realloc succeeds: the result is block `newId`
+  | reallocFail (id size : Nat)     -- tracked realloc of block `id`, platform realloc returns NULL
 deriving DecidableEq, Repr, Inhabited
 
+def doAlloc (w : World) (id size : Nat) : World :=
+  if w.det.isLive id then w else { w with det := w.det.alloc id size }
+
+def doFree (w : World) (id : Nat) : World := { w with det := w.det.free id }
+
+/-- `reallocMemory`, success: `removeNode(old)` and then `storeLeakInformation(new)` exactly as
+    for a fresh allocation (current period, next allocation number).  Script guards as for
+    alloc/free: the old id must be live, the new id must not be (it may be the old id again). -/
+def doRealloc (w : World) (id newId size : Nat) : World :=
+  if !w.det.isLive id then w
+  else if newId != id && w.det.isLive newId then w
+  else doAlloc (doFree w id) newId size
+
 def execCmd (w : World) : Cmd → World
-  | .alloc id size => if w.det.isLive id then w else { w with det := w.det.alloc id size }
-  | .free id => { w with det := w.det.free id }
+  | .alloc id size => doAlloc w id size
+  | .free id => doFree w id
+  | .realloc id newId size => doRealloc w id newId size
+  | .reallocFail id size => { w with det := w.det.reallocFail id size }
   | .expectLeaks n => { w with plg := { w.plg with expected := n } }
   | .ignoreLeaks => { w with plg := { w.plg with ignoreAll := ignoreAllLeaksValue } }
   | .fail => { w with failures := w.failures + 1, aborted := true }
